@@ -433,3 +433,1095 @@ Section Cases.
         split; [lia|]. reflexivity.
   Qed.
 End Cases.
+
+(* ------------------------------------------------------------------ the invariant of reachable registries *)
+Definition wa (q : spec) (kv : akey * value) : nat := if Nat.eqb (aprov kv) q then 1 else 0.
+Definition ws (q : spec) (kl : skey * list value) : nat :=
+  if ospec_eqb (snd (fst kl)) (Some q) then length (snd kl) else 0.
+Definition live (r : reg) (q : spec) : nat := wsum (wa q) (adapters r) + wsum (ws q) (subscribers r).
+
+Lemma wa_aset q ad k v :
+  wsum (wa q) (aset akey_eqb ad k v)
+  = wsum (wa q) ad + match aget akey_eqb ad k with Some _ => 0 | None => wa q (k, v) end.
+Proof.
+  pose proof (wsum_aset akey_eqb akey_eqb_eq (wa q) ad k v) as H.
+  destruct (aget akey_eqb ad k) as [old|]; [|lia].
+  assert (wa q (k, old) = wa q (k, v)) by reflexivity. lia.
+Qed.
+
+Lemma wa_adel q ad k old : aget akey_eqb ad k = Some old ->
+  wsum (wa q) (adel akey_eqb ad k) + wa q (k, old) = wsum (wa q) ad.
+Proof.
+  intros E. pose proof (wsum_adel akey_eqb akey_eqb_eq (wa q) ad k) as H. rewrite E in H. auto.
+Qed.
+
+Section Inv.
+  Variable W : world.
+
+  Record inv0 (r : reg) : Prop := mkInv0 {
+    inv_ad : NoDup (map fst (adapters r));
+    inv_su : NoDup (map fst (subscribers r));
+    inv_ne : forall k l, In (k, l) (subscribers r) -> l <> [];
+    inv_pc : NoDup (map fst (provided_cnt r));
+    inv_ex : ext_inv W (provided_cnt r) (extendors r)
+  }.
+  Definition ge (r : reg) : Prop := forall q, live r q <= cnt_get (provided_cnt r) q.
+  Definition inv (r : reg) : Prop := inv0 r /\ ge r.
+
+  Lemma inv0_changed r : inv0 r -> inv0 (changed r).
+  Proof. intros []; constructor; cbn; auto. Qed.
+
+  Lemma inv0_incr r p : inv0 r -> inv0 (provide_incr W r p).
+  Proof.
+    intros []. destruct (provide_incr_fields W r p) as (A & S & _).
+    constructor; try rewrite A; try rewrite S; auto.
+    - apply nodup_cnt_incr; auto.
+    - apply ext_inv_incr; auto.
+  Qed.
+
+  Lemma inv0_decr r p k : inv0 r -> inv0 (provide_decr W r p k).
+  Proof.
+    intros []. destruct (provide_decr_fields W r p k) as (A & S & _).
+    constructor; try rewrite A; try rewrite S; auto.
+    - apply nodup_cnt_decr; auto.
+    - apply ext_inv_decr; auto.
+  Qed.
+
+  Lemma inv0_set_ad r a : inv0 r -> NoDup (map fst a) -> inv0 (set_ad r a).
+  Proof. intros [] H; constructor; cbn; auto. Qed.
+
+  Lemma inv0_set_su r s : inv0 r -> NoDup (map fst s) -> (forall k l, In (k, l) s -> l <> []) -> inv0 (set_su r s).
+  Proof. intros [] H H'; constructor; cbn; auto. Qed.
+
+  Lemma live_incr r p q : live (provide_incr W r p) q = live r q.
+  Proof. unfold live. destruct (provide_incr_fields W r p) as (A & S & _). rewrite A, S; auto. Qed.
+
+  Lemma live_decr r p k q : live (provide_decr W r p k) q = live r q.
+  Proof. unfold live. destruct (provide_decr_fields W r p k) as (A & S & _). rewrite A, S; auto. Qed.
+
+  Lemma inv_empty g : inv (mkReg [] [] [] [] g).
+  Proof.
+    split; [|intros q; cbn; lia].
+    constructor; cbn; try constructor; try tauto.
+    - cbn. tauto.
+    - cbn. intros [H _]; lia.
+  Qed.
+
+  Lemma inv_changed r : inv r -> inv (changed r).
+  Proof. intros [H G]; split; [apply inv0_changed; auto | exact G]. Qed.
+
+  (* ---- unregister *)
+  Lemma inv_unregister r req p n v : inv r -> inv (unregister W r req p n v).
+  Proof.
+    intros [I G]. pose proof (unregister_cases W r req p n v) as C; cbv zeta in C.
+    destruct C as [[C _]|[C (old & E & _)]]; rewrite C; clear C; [split; auto|].
+    set (k := (map conv req, p, n)) in *.
+    assert (I1 : inv0 (set_ad r (adel akey_eqb (adapters r) k))).
+    { apply inv0_set_ad; auto. apply NoDup_adel; apply I. }
+    split; [apply inv0_changed, inv0_decr; auto|].
+    intros q. change (live (provide_decr W (set_ad r (adel akey_eqb (adapters r) k)) p 1) q
+                      <= cnt_get (provided_cnt (provide_decr W (set_ad r (adel akey_eqb (adapters r) k)) p 1)) q).
+    rewrite live_decr, cnt_provide_decr; [|apply I1].
+    specialize (G q). unfold live in *. cbn [adapters subscribers set_ad provided_cnt].
+    pose proof (wa_adel q _ _ _ E) as H. unfold wa at 2 in H. cbn in H.
+    destruct (Nat.eqb q p) eqn:Q.
+    - apply Nat.eqb_eq in Q; subst q. rewrite Nat.eqb_refl in H. lia.
+    - rewrite Nat.eqb_sym, Q in H. lia.
+  Qed.
+
+  (* ---- register *)
+  Lemma inv_register r req p n v : inv r -> inv (register W r req p n v).
+  Proof.
+    destruct v as [v'|]; [|apply inv_unregister].
+    intros [I G]. pose proof (register_cases W r req p n v') as C; cbv zeta in C.
+    destruct C as [[C _]|[C _]]; rewrite C; clear C; [split; auto|].
+    set (k := (map conv req, p, n)) in *.
+    assert (I1 : inv0 (set_ad r (aset akey_eqb (adapters r) k v'))).
+    { apply inv0_set_ad; auto. apply NoDup_aset; [apply akey_eqb_eq | apply I]. }
+    split; [apply inv0_changed, inv0_incr; auto|].
+    intros q. change (live (provide_incr W (set_ad r (aset akey_eqb (adapters r) k v')) p) q
+                      <= cnt_get (provided_cnt (provide_incr W (set_ad r (aset akey_eqb (adapters r) k v')) p)) q).
+    rewrite live_incr, cnt_provide_incr.
+    specialize (G q). unfold live in *. cbn [adapters subscribers set_ad provided_cnt].
+    rewrite wa_aset. destruct (aget akey_eqb (adapters r) k).
+    - destruct (Nat.eqb q p) eqn:Q; [apply Nat.eqb_eq in Q; subst q|]; lia.
+    - change (wa q (k, v')) with (if Nat.eqb p q then 1 else 0).
+      destruct (Nat.eqb q p) eqn:Q.
+      + apply Nat.eqb_eq in Q; subst q. rewrite Nat.eqb_refl. lia.
+      + rewrite Nat.eqb_sym, Q. lia.
+  Qed.
+
+  (* ---- subscribe *)
+  Lemma ws_aset q su k l :
+    wsum (ws q) (aset skey_eqb su k l)
+    + (if ospec_eqb (snd k) (Some q)
+       then length (match aget skey_eqb su k with Some o => o | None => [] end) else 0)
+    = wsum (ws q) su + (if ospec_eqb (snd k) (Some q) then length l else 0).
+  Proof.
+    pose proof (wsum_aset skey_eqb skey_eqb_eq (ws q) su k l) as H.
+    destruct (aget skey_eqb su k); unfold ws in *; cbn [fst snd length] in *;
+      destruct (ospec_eqb (snd k) (Some q)); lia.
+  Qed.
+
+  Lemma ws_adel q su k :
+    wsum (ws q) (adel skey_eqb su k)
+    + (if ospec_eqb (snd k) (Some q)
+       then length (match aget skey_eqb su k with Some o => o | None => [] end) else 0)
+    = wsum (ws q) su.
+  Proof.
+    pose proof (wsum_adel skey_eqb skey_eqb_eq (ws q) su k) as H.
+    destruct (aget skey_eqb su k); unfold ws in *; cbn [fst snd length] in *;
+      destruct (ospec_eqb (snd k) (Some q)); lia.
+  Qed.
+
+  Lemma inv_subscribe r req p v : inv r -> inv (subscribe W r req p v).
+  Proof.
+    intros [I G]. rewrite subscribe_form. cbv zeta.
+    set (k := (map conv req, p)). set (su' := aset skey_eqb (subscribers r) k (sub_leaf r k ++ [v])).
+    assert (I1 : inv0 (set_su r su')).
+    { apply inv0_set_su; auto.
+      - apply NoDup_aset; [apply skey_eqb_eq | apply I].
+      - intros k' l H. apply (In_aset skey_eqb skey_eqb_eq) in H. destruct H as [H|H].
+        + inversion H; subst. destruct (sub_leaf r k); discriminate.
+        + eapply inv_ne; eauto. }
+    assert (L : forall q, live (set_su r su') q = live r q + if ospec_eqb p (Some q) then 1 else 0).
+    { intros q. unfold live. cbn [adapters subscribers set_su]. subst su'.
+      pose proof (ws_aset q (subscribers r) k (sub_leaf r k ++ [v])) as H.
+      fold (sub_leaf r k) in H. rewrite app_length in H. cbn [snd length] in H. subst k. cbn [snd] in H.
+      destruct (ospec_eqb p (Some q)); lia. }
+    destruct p as [p'|].
+    - split; [apply inv0_changed, inv0_incr; auto|].
+      intros q. change (live (provide_incr W (set_su r su') p') q
+                        <= cnt_get (provided_cnt (provide_incr W (set_su r su') p')) q).
+      rewrite live_incr, cnt_provide_incr, L. cbn [provided_cnt set_su ospec_eqb]. specialize (G q).
+      destruct (Nat.eqb q p') eqn:Q.
+      + apply Nat.eqb_eq in Q; subst q. rewrite Nat.eqb_refl. lia.
+      + rewrite Nat.eqb_sym, Q. lia.
+    - split; [apply inv0_changed; auto|].
+      intros q. change (live (set_su r su') q <= cnt_get (provided_cnt r) q).
+      rewrite L. cbn. specialize (G q). lia.
+  Qed.
+
+  (* ---- unsubscribe *)
+  Lemma sub_leaf_aget r k : sub_leaf r k <> [] -> aget skey_eqb (subscribers r) k = Some (sub_leaf r k).
+  Proof. unfold sub_leaf. destruct (aget skey_eqb (subscribers r) k); [auto | intros H; contradiction]. Qed.
+
+  Lemma inv_unsubscribe r req p v : inv r -> inv (unsubscribe W r req p v).
+  Proof.
+    intros [I G]. pose proof (unsubscribe_cases W r req p v) as C; cbv zeta in C.
+    set (k := (map conv req, p)) in *. set (old := sub_leaf r k) in *. set (new := unsub_new old v) in *.
+    destruct C as [[C _]|[LT C]]; rewrite C; clear C; [split; auto|].
+    assert (A : aget skey_eqb (subscribers r) k = Some old).
+    { apply sub_leaf_aget. fold old. intros E. rewrite E in LT. cbn in LT. lia. }
+    set (su' := match new with [] => adel skey_eqb (subscribers r) k | _ => aset skey_eqb (subscribers r) k new end).
+    assert (I1 : inv0 (set_su r su')).
+    { apply inv0_set_su; auto; subst su'; destruct new as [|y new'] eqn:EN.
+      - apply NoDup_adel; apply I.
+      - apply NoDup_aset; [apply skey_eqb_eq | apply I].
+      - intros k' l H. apply In_adel in H. eapply inv_ne; eauto.
+      - intros k' l H. apply (In_aset skey_eqb skey_eqb_eq) in H. destruct H as [H|H].
+        + inversion H; subst. discriminate.
+        + eapply inv_ne; eauto. }
+    assert (L : forall q, live (set_su r su') q + (if ospec_eqb p (Some q) then length old - length new else 0) = live r q).
+    { intros q. unfold live. cbn [adapters subscribers set_su].
+      subst su'. destruct new as [|y new'] eqn:EN.
+      - pose proof (ws_adel q (subscribers r) k) as H. rewrite A in H. subst k. cbn [snd length] in *.
+        destruct (ospec_eqb p (Some q)); lia.
+      - pose proof (ws_aset q (subscribers r) k (y :: new')) as H. rewrite A in H. subst k. cbn [snd] in *.
+        destruct (ospec_eqb p (Some q)); lia. }
+    destruct p as [p'|].
+    - split; [apply inv0_changed, inv0_decr; auto|].
+      intros q. change (live (provide_decr W (set_su r su') p' (length old - length new)) q
+                        <= cnt_get (provided_cnt (provide_decr W (set_su r su') p' (length old - length new))) q).
+      rewrite live_decr, cnt_provide_decr; [|apply I1]. cbn [provided_cnt set_su].
+      specialize (G q). specialize (L q). cbn [ospec_eqb] in L.
+      destruct (Nat.eqb q p') eqn:Q.
+      + apply Nat.eqb_eq in Q; subst q. rewrite Nat.eqb_refl in L. lia.
+      + rewrite Nat.eqb_sym, Q in L. lia.
+    - split; [apply inv0_changed; auto|].
+      intros q. change (live (set_su r su') q <= cnt_get (provided_cnt r) q).
+      specialize (G q). specialize (L q). cbn [ospec_eqb] in L. lia.
+  Qed.
+End Inv.
+
+(* ------------------------------------------------------------------ effect of the mutators on the two maps *)
+Section Effects.
+  Variable W : world.
+
+  Lemma sub_leaf_ext r r' k : subscribers r = subscribers r' -> sub_leaf r k = sub_leaf r' k.
+  Proof. unfold sub_leaf. intros ->; auto. Qed.
+
+  Lemma adapters_chg_incr r p : adapters (changed (provide_incr W r p)) = adapters r.
+  Proof. reflexivity. Qed.
+  Lemma adapters_chg_decr r p k : adapters (changed (provide_decr W r p k)) = adapters r.
+  Proof. unfold provide_decr. destruct (Nat.eqb _ 0); reflexivity. Qed.
+  Lemma subscribers_chg_incr r p : subscribers (changed (provide_incr W r p)) = subscribers r.
+  Proof. reflexivity. Qed.
+  Lemma subscribers_chg_decr r p k : subscribers (changed (provide_decr W r p k)) = subscribers r.
+  Proof. unfold provide_decr. destruct (Nat.eqb _ 0); reflexivity. Qed.
+
+  Lemma adapters_register r req p n v' k' :
+    aget akey_eqb (adapters (register W r req p n (Some v'))) k'
+    = if akey_eqb k' (map conv req, p, n)
+      then match aget akey_eqb (adapters r) (map conv req, p, n) with
+           | Some old => if v_is old v' then Some old else Some v'
+           | None => Some v'
+           end
+      else aget akey_eqb (adapters r) k'.
+  Proof.
+    pose proof (register_cases W r req p n v') as C; cbv zeta in C.
+    set (k := (map conv req, p, n)) in *.
+    destruct C as [[C (old & E & I)]|[C N]]; rewrite C; clear C.
+    - destruct (akey_eqb k' k) eqn:K; auto. apply akey_eqb_eq in K; subst k'. rewrite E, I; auto.
+    - rewrite adapters_chg_incr. cbn [adapters set_ad].
+      destruct (akey_eqb k' k) eqn:K.
+      + apply akey_eqb_eq in K; subst k'. rewrite (aget_aset_same akey_eqb akey_eqb_eq).
+        destruct (aget akey_eqb (adapters r) k) as [old|] eqn:E; auto. rewrite (N old); auto.
+      + rewrite (aget_aset_other akey_eqb akey_eqb_eq); auto. intros ->. rewrite (eqb_refl akey_eqb akey_eqb_eq) in K. discriminate.
+  Qed.
+
+  Lemma adapters_unregister r req p n v k' : NoDup (map fst (adapters r)) ->
+    aget akey_eqb (adapters (unregister W r req p n v)) k'
+    = if akey_eqb k' (map conv req, p, n)
+      then match aget akey_eqb (adapters r) (map conv req, p, n) with
+           | Some old => if removes old v then None else Some old
+           | None => None
+           end
+      else aget akey_eqb (adapters r) k'.
+  Proof.
+    intros ND. pose proof (unregister_cases W r req p n v) as C; cbv zeta in C.
+    set (k := (map conv req, p, n)) in *.
+    destruct C as [[C N]|[C (old & E & I)]]; rewrite C; clear C.
+    - destruct (akey_eqb k' k) eqn:K; auto. apply akey_eqb_eq in K; subst k'.
+      destruct (aget akey_eqb (adapters r) k) as [old|] eqn:E; auto. rewrite (N old); auto.
+    - rewrite adapters_chg_decr. cbn [adapters set_ad].
+      destruct (akey_eqb k' k) eqn:K.
+      + apply akey_eqb_eq in K; subst k'. rewrite (aget_adel_same akey_eqb akey_eqb_eq); auto. rewrite E, I; auto.
+      + rewrite (aget_adel_other akey_eqb akey_eqb_eq); auto. intros ->. rewrite (eqb_refl akey_eqb akey_eqb_eq) in K. discriminate.
+  Qed.
+
+  Lemma subscribers_unregister r req p n v : subscribers (unregister W r req p n v) = subscribers r.
+  Proof.
+    pose proof (unregister_cases W r req p n v) as C; cbv zeta in C.
+    destruct C as [[C _]|[C _]]; rewrite C; auto. rewrite subscribers_chg_decr; auto.
+  Qed.
+
+  Lemma subscribers_register r req p n v : subscribers (register W r req p n v) = subscribers r.
+  Proof.
+    destruct v as [v'|]; [|apply subscribers_unregister].
+    pose proof (register_cases W r req p n v') as C; cbv zeta in C.
+    destruct C as [[C _]|[C _]]; rewrite C; auto.
+  Qed.
+
+  Lemma adapters_subscribe r req p v : adapters (subscribe W r req p v) = adapters r.
+  Proof.
+    rewrite subscribe_form. cbv zeta. destruct p; [rewrite adapters_chg_incr|]; reflexivity.
+  Qed.
+
+  Lemma adapters_unsubscribe r req p v : adapters (unsubscribe W r req p v) = adapters r.
+  Proof.
+    pose proof (unsubscribe_cases W r req p v) as C; cbv zeta in C.
+    destruct C as [[C _]|[_ C]]; rewrite C; auto.
+    destruct p; [rewrite adapters_chg_decr|]; reflexivity.
+  Qed.
+
+  Lemma sub_leaf_set_su r s k : sub_leaf (set_su r s) k = match aget skey_eqb s k with Some l => l | None => [] end.
+  Proof. reflexivity. Qed.
+
+  Lemma leaf_subscribe r req p v k' :
+    sub_leaf (subscribe W r req p v) k'
+    = if skey_eqb k' (map conv req, p) then sub_leaf r (map conv req, p) ++ [v] else sub_leaf r k'.
+  Proof.
+    rewrite subscribe_form. cbv zeta. set (k := (map conv req, p)).
+    set (s := aset skey_eqb (subscribers r) k (sub_leaf r k ++ [v])).
+    assert (E : sub_leaf (changed match p with Some p' => provide_incr W (set_su r s) p' | None => set_su r s end) k'
+                = sub_leaf (set_su r s) k').
+    { apply sub_leaf_ext. destruct p; [rewrite subscribers_chg_incr|]; reflexivity. }
+    rewrite E, sub_leaf_set_su. subst s.
+    destruct (skey_eqb k' k) eqn:K.
+    - apply skey_eqb_eq in K; subst k'. rewrite (aget_aset_same skey_eqb skey_eqb_eq); auto.
+    - rewrite (aget_aset_other skey_eqb skey_eqb_eq); auto. intros ->. rewrite (eqb_refl skey_eqb skey_eqb_eq) in K. discriminate.
+  Qed.
+
+  Lemma leaf_unsubscribe r req p v k' : NoDup (map fst (subscribers r)) ->
+    sub_leaf (unsubscribe W r req p v) k'
+    = if skey_eqb k' (map conv req, p) then unsub_new (sub_leaf r (map conv req, p)) v else sub_leaf r k'.
+  Proof.
+    intros ND. pose proof (unsubscribe_cases W r req p v) as C; cbv zeta in C.
+    set (k := (map conv req, p)) in *. set (old := sub_leaf r k) in *. set (new := unsub_new old v) in *.
+    destruct C as [[C E]|[LT C]]; rewrite C; clear C.
+    - destruct (skey_eqb k' k) eqn:K; auto. apply skey_eqb_eq in K; subst k'. rewrite E; auto.
+    - set (s := match new with [] => adel skey_eqb (subscribers r) k | _ => aset skey_eqb (subscribers r) k new end).
+      assert (E : sub_leaf (changed match p with
+                                    | Some p' => provide_decr W (set_su r s) p' (length old - length new)
+                                    | None => set_su r s end) k' = sub_leaf (set_su r s) k').
+      { apply sub_leaf_ext. destruct p; [rewrite subscribers_chg_decr|]; reflexivity. }
+      rewrite E, sub_leaf_set_su. subst s.
+      destruct (skey_eqb k' k) eqn:K.
+      + apply skey_eqb_eq in K; subst k'. destruct new as [|y new'] eqn:EN.
+        * rewrite (aget_adel_same skey_eqb skey_eqb_eq); auto.
+        * rewrite (aget_aset_same skey_eqb skey_eqb_eq); auto.
+      + assert (N : k' <> k) by (intros ->; rewrite (eqb_refl skey_eqb skey_eqb_eq) in K; discriminate).
+        destruct new as [|y new'] eqn:EN.
+        * rewrite (aget_adel_other skey_eqb skey_eqb_eq); auto.
+        * rewrite (aget_aset_other skey_eqb skey_eqb_eq); auto.
+  Qed.
+End Effects.
+
+(* ------------------------------------------------------------------ replaying listings *)
+Lemma wsum_perm {K V} (w : K * V -> nat) l l' : Permutation l l' -> wsum w l = wsum w l'.
+Proof. induction 1; cbn; lia. Qed.
+
+Lemma perm_aget {K V} (eqb : K -> K -> bool) (eqb_eq : forall a b, eqb a b = true <-> a = b)
+      (m m' : list (K * V)) k :
+  NoDup (map fst m) -> Permutation m' m -> aget eqb m' k = aget eqb m k.
+Proof.
+  intros ND P.
+  assert (ND' : NoDup (map fst m')).
+  { eapply Permutation_NoDup; [apply Permutation_map, Permutation_sym, P | auto]. }
+  destruct (aget eqb m k) as [v|] eqn:E.
+  - apply (In_aget eqb eqb_eq); auto. eapply Permutation_in; [apply Permutation_sym, P|].
+    apply (aget_Some_In eqb eqb_eq); auto.
+  - apply (aget_None_notin eqb eqb_eq). apply (aget_None_notin eqb eqb_eq) in E.
+    intros H. apply E. eapply Permutation_in; [apply Permutation_map, P | auto].
+Qed.
+
+Lemma ws_allsubs q (su : list (skey * list value)) :
+  wsum (ws q) su
+  = length (filter (fun kv : skey * value => ospec_eqb (sprov kv) (Some q))
+                   (flat_map (fun kv => map (fun v => (fst kv, v)) (snd kv)) su)).
+Proof.
+  induction su as [|[k l] su IH]; cbn [wsum flat_map]; auto.
+  rewrite filter_app, app_length, <- IH. f_equal.
+  unfold ws, sprov; cbn [fst snd].
+  induction l as [|x l IHl]; cbn; [destruct (ospec_eqb (snd k) (Some q)); auto|].
+  destruct (ospec_eqb (snd k) (Some q)); cbn in *; lia.
+Qed.
+
+Lemma live_live_count r q : live r q = live_count r q.
+Proof.
+  unfold live, live_count, allRegistrations, allSubscriptions.
+  rewrite ws_allsubs. f_equal. symmetry. apply (filter_length_wsum (fun kv : akey * value => Nat.eqb (aprov kv) q)).
+Qed.
+
+Lemma proj_allsubs (su : list (skey * list value)) k : NoDup (map fst su) ->
+  map snd (filter (fun kv : skey * value => skey_eqb (fst kv) k)
+                  (flat_map (fun kv => map (fun v => (fst kv, v)) (snd kv)) su))
+  = match aget skey_eqb su k with Some l => l | None => [] end.
+Proof.
+  induction su as [|[k0 l] su IH]; cbn [flat_map aget map fst snd]; auto.
+  intros ND; inversion ND; subst. rewrite filter_app, map_app, IH; auto.
+  assert (F : map snd (filter (fun kv : skey * value => skey_eqb (fst kv) k) (map (fun v => (k0, v)) l))
+                        = if skey_eqb k0 k then l else []).
+  { clear. induction l as [|x l IHl]; cbn; [destruct (skey_eqb k0 k); auto|].
+    destruct (skey_eqb k0 k); cbn; [f_equal|]; auto. }
+  rewrite F. destruct (skey_eqb k k0) eqn:E.
+  - apply skey_eqb_eq in E; subst k0. rewrite (eqb_refl skey_eqb skey_eqb_eq).
+    assert (A : aget skey_eqb su k = None) by (apply (aget_None_notin skey_eqb skey_eqb_eq); auto).
+    rewrite A, app_nil_r; auto.
+  - destruct (skey_eqb k0 k) eqn:E'; auto. apply skey_eqb_eq in E'; subst. rewrite (eqb_refl skey_eqb skey_eqb_eq) in E. discriminate.
+Qed.
+
+Section Replay.
+  Variable W : world.
+
+  Lemma provided_cnt_changed x : provided_cnt (changed x) = provided_cnt x.
+  Proof. reflexivity. Qed.
+
+  Lemma cnt_register_fresh r req p n v q : aget akey_eqb (adapters r) (map conv req, p, n) = None ->
+    cnt_get (provided_cnt (register W r req p n (Some v))) q
+    = cnt_get (provided_cnt r) q + if Nat.eqb p q then 1 else 0.
+  Proof.
+    intros E. pose proof (register_cases W r req p n v) as C; cbv zeta in C.
+    destruct C as [[_ (old & E' & _)]|[C _]]; [congruence|]. rewrite C, provided_cnt_changed, cnt_provide_incr.
+    cbn [provided_cnt set_ad]. destruct (Nat.eqb q p) eqn:Q.
+    - apply Nat.eqb_eq in Q; subst. rewrite Nat.eqb_refl. lia.
+    - rewrite Nat.eqb_sym, Q. lia.
+  Qed.
+
+  Lemma cnt_subscribe r req p v q :
+    cnt_get (provided_cnt (subscribe W r req p v)) q
+    = cnt_get (provided_cnt r) q + if ospec_eqb p (Some q) then 1 else 0.
+  Proof.
+    rewrite subscribe_form. cbv zeta. rewrite provided_cnt_changed. destruct p as [p'|]; cbn [ospec_eqb].
+    - rewrite cnt_provide_incr. cbn [provided_cnt set_su]. destruct (Nat.eqb q p') eqn:Q.
+      + apply Nat.eqb_eq in Q; subst. rewrite Nat.eqb_refl. lia.
+      + rewrite Nat.eqb_sym, Q. lia.
+    - cbn. lia.
+  Qed.
+
+  Lemma replay_regs_spec : forall regs acc,
+    inv W acc -> NoDup (map fst regs) ->
+    (forall k, In k (map fst regs) -> aget akey_eqb (adapters acc) k = None) ->
+    inv W (replay_regs W acc regs)
+    /\ (forall k, aget akey_eqb (adapters (replay_regs W acc regs)) k
+                  = match aget akey_eqb regs k with Some v => Some v | None => aget akey_eqb (adapters acc) k end)
+    /\ subscribers (replay_regs W acc regs) = subscribers acc
+    /\ (forall q, cnt_get (provided_cnt (replay_regs W acc regs)) q
+                  = cnt_get (provided_cnt acc) q + wsum (wa q) regs).
+  Proof.
+    induction regs as [|[[[req p] n] v] regs IH]; intros acc I ND F.
+    - cbn. split; [auto|]. split; [auto|]. split; [auto|]. intros; lia.
+    - inversion ND as [|? ? NI ND']; subst. unfold replay_regs. cbn [fold_left fst snd].
+      set (acc1 := register W acc (map Some req) p n (Some v)).
+      fold (replay_regs W acc1 regs).
+      assert (K : forall k', aget akey_eqb (adapters acc1) k'
+                             = if akey_eqb k' (req, p, n) then Some v else aget akey_eqb (adapters acc) k').
+      { intros k'. subst acc1. rewrite adapters_register, map_conv_Some.
+        rewrite (F (req, p, n)); [auto | cbn; auto]. }
+      destruct (IH acc1) as (I' & A' & S' & C'); auto.
+      { apply inv_register; auto. }
+      { intros k H. rewrite K. destruct (akey_eqb k (req, p, n)) eqn:E.
+        - apply akey_eqb_eq in E; subst. contradiction.
+        - apply F; cbn; auto. }
+      split; [auto|]. split; [|split].
+      + intros k. rewrite A', K. cbn [aget]. destruct (akey_eqb k (req, p, n)) eqn:E; auto.
+        apply akey_eqb_eq in E; subst k.
+        assert (N : aget akey_eqb regs (req, p, n) = None) by (apply (aget_None_notin akey_eqb akey_eqb_eq); auto).
+        rewrite N; auto.
+      + rewrite S'. apply subscribers_register.
+      + intros q. rewrite C'. subst acc1. rewrite cnt_register_fresh.
+        * cbn [wsum]. change (wa q (req, p, n, v)) with (if Nat.eqb p q then 1 else 0). lia.
+        * rewrite map_conv_Some. apply F; cbn; auto.
+  Qed.
+
+  Lemma replay_subs_spec : forall subs acc,
+    inv W acc ->
+    inv W (replay_subs W acc subs)
+    /\ adapters (replay_subs W acc subs) = adapters acc
+    /\ (forall k, sub_leaf (replay_subs W acc subs) k
+                  = sub_leaf acc k ++ map snd (filter (fun kv => skey_eqb (fst kv) k) subs))
+    /\ (forall q, cnt_get (provided_cnt (replay_subs W acc subs)) q
+                  = cnt_get (provided_cnt acc) q
+                    + length (filter (fun kv => ospec_eqb (sprov kv) (Some q)) subs)).
+  Proof.
+    induction subs as [|[[req p] v] subs IH]; intros acc I.
+    - cbn. split; [auto|]. split; [auto|]. split; [intros k; rewrite app_nil_r; auto|]. intros; lia.
+    - unfold replay_subs. cbn [fold_left fst snd].
+      set (acc1 := subscribe W acc (map Some req) p v).
+      fold (replay_subs W acc1 subs).
+      destruct (IH acc1) as (I' & A' & L' & C'); [apply inv_subscribe; auto|].
+      split; [auto|]. split; [|split].
+      + rewrite A'. apply adapters_subscribe.
+      + intros k. rewrite L'. subst acc1. rewrite leaf_subscribe, map_conv_Some. cbn [filter fst].
+        destruct (skey_eqb k (req, p)) eqn:E.
+        * apply skey_eqb_eq in E; subst k. rewrite (eqb_refl skey_eqb skey_eqb_eq). cbn [map snd].
+          rewrite <- app_assoc. reflexivity.
+        * destruct (skey_eqb (req, p) k) eqn:E'; auto.
+          apply skey_eqb_eq in E'; subst k. rewrite (eqb_refl skey_eqb skey_eqb_eq) in E. discriminate.
+      + intros q. rewrite C'. subst acc1. rewrite cnt_subscribe. cbn [filter].
+        change (sprov (req, p, v)) with p. destruct (ospec_eqb p (Some q)); cbn [length]; lia.
+  Qed.
+End Replay.
+
+(* ------------------------------------------------------------------ replay / rebuild preserve the maps *)
+Definition storage_empty (r0 : reg) : Prop :=
+  adapters r0 = [] /\ subscribers r0 = [] /\ provided_cnt r0 = [] /\ extendors r0 = [].
+
+Section Main.
+  Variable W : world.
+
+  Lemma inv_storage_empty r0 : storage_empty r0 -> inv W r0.
+  Proof.
+    destruct r0 as [a s c e g]; unfold storage_empty; cbn. intros (-> & -> & -> & ->). apply inv_empty.
+  Qed.
+
+  Lemma replay_preserves_lemma r r0 regs subs :
+    inv W r -> storage_empty r0 ->
+    Permutation regs (allRegistrations r) -> Permutation subs (allSubscriptions r) ->
+    (forall k, map snd (filter (fun kv => skey_eqb (fst kv) k) subs) = sub_leaf r k) ->
+    inv W (replay_into W r0 regs subs)
+    /\ (forall k, aget akey_eqb (adapters (replay_into W r0 regs subs)) k = aget akey_eqb (adapters r) k)
+    /\ (forall k, sub_leaf (replay_into W r0 regs subs) k = sub_leaf r k)
+    /\ (forall q, cnt_get (provided_cnt (replay_into W r0 regs subs)) q = live_count r q).
+  Proof.
+    intros [I G] E PR PS PK. pose proof (inv_storage_empty r0 E) as I0.
+    destruct E as (Ea & Es & Ec & Ee).
+    assert (NDr : NoDup (map fst regs)).
+    { eapply Permutation_NoDup; [apply Permutation_map, Permutation_sym, PR | apply I]. }
+    destruct (replay_regs_spec W regs r0 I0 NDr) as (I1 & A1 & S1 & C1).
+    { intros k _. rewrite Ea; auto. }
+    unfold replay_into. destruct (replay_subs_spec W subs (replay_regs W r0 regs) I1) as (I2 & A2 & L2 & C2).
+    split; [auto|]. split; [|split].
+    - intros k. rewrite A2, A1, Ea. cbn [aget].
+      rewrite (perm_aget akey_eqb akey_eqb_eq (adapters r) regs k); [|apply I|exact PR].
+      destruct (aget akey_eqb (adapters r) k); auto.
+    - intros k. rewrite L2, PK. unfold sub_leaf at 1. rewrite S1, Es. reflexivity.
+    - intros q. rewrite C2, C1, Ec. cbn [cnt_get aget]. unfold live_count.
+      rewrite (wsum_perm (wa q) regs (allRegistrations r) PR).
+      rewrite (Permutation_length (Permutation_filter _ _ _ PS)).
+      rewrite (filter_length_wsum (fun kv : akey * value => Nat.eqb (aprov kv) q)). reflexivity.
+  Qed.
+
+  Lemma rebuild_is_replay r :
+    rebuild W r = replay_into W (fresh_reg (generation r)) (allRegistrations r) (allSubscriptions r).
+  Proof. reflexivity. Qed.
+
+  Lemma rebuild_preserves_lemma r : inv W r ->
+    inv W (rebuild W r)
+    /\ (forall k, aget akey_eqb (adapters (rebuild W r)) k = aget akey_eqb (adapters r) k)
+    /\ (forall k, sub_leaf (rebuild W r) k = sub_leaf r k)
+    /\ (forall q, cnt_get (provided_cnt (rebuild W r)) q = live_count r q).
+  Proof.
+    intros I. rewrite rebuild_is_replay. apply replay_preserves_lemma; auto.
+    - repeat split.
+    - intros k. apply proj_allsubs. apply I.
+  Qed.
+
+  (* ---- every reachable registry satisfies the invariant *)
+  Lemma inv_bstep r o : inv W r -> inv W (bstep W r o).
+  Proof.
+    intros I. destruct o; cbn [bstep].
+    - apply inv_register; auto.
+    - apply inv_unregister; auto.
+    - apply inv_subscribe; auto.
+    - apply inv_unsubscribe; auto.
+    - apply rebuild_preserves_lemma; auto.
+  Qed.
+
+  Lemma brun_snoc ops o : brun W (ops ++ [o]) = bstep W (brun W ops) o.
+  Proof. unfold brun. rewrite fold_left_app. reflexivity. Qed.
+
+  Lemma inv_brun ops : inv W (brun W ops).
+  Proof.
+    induction ops as [|o ops IH] using rev_ind; [apply inv_empty|].
+    rewrite brun_snoc. apply inv_bstep; auto.
+  Qed.
+
+  (* ---- refinement to the ledger *)
+  Lemma aledger_snoc ops o : aledger (ops ++ [o]) = aled_step (aledger ops) o.
+  Proof. unfold aledger. rewrite fold_left_app. reflexivity. Qed.
+  Lemma sledger_snoc ops o : sledger (ops ++ [o]) = sled_step (sledger ops) o.
+  Proof. unfold sledger. rewrite fold_left_app. reflexivity. Qed.
+
+  Lemma avalues_app a b : avalues (a ++ b) = avalues a ++ avalues b.
+  Proof. unfold avalues. apply flat_map_app. Qed.
+
+  Lemma aledger_range ops : forall k x, aledger ops k = Some x -> In x (avalues ops).
+  Proof.
+    induction ops as [|o ops IH] using rev_ind; [discriminate|].
+    intros k x. rewrite aledger_snoc, avalues_app, in_app_iff.
+    destruct o as [req p n v|req p n v| | |]; cbn [aled_step]; try (intros H; left; eapply IH; exact H).
+    - unfold aupd. destruct (akey_eqb k (akey_of req p n)); [|intros H; left; eapply IH; exact H].
+      intros ->. right. cbn. auto.
+    - destruct v as [v|].
+      + destruct (aledger ops (akey_of req p n)) as [old|] eqn:E; [|intros H; left; eapply IH; exact H].
+        destruct (v_is old v); [|intros H; left; eapply IH; exact H].
+        unfold aupd. destruct (akey_eqb k (akey_of req p n)); [discriminate|intros H; left; eapply IH; exact H].
+      + unfold aupd. destruct (akey_eqb k (akey_of req p n)); [discriminate|intros H; left; eapply IH; exact H].
+  Qed.
+
+  Lemma identity_ok_app_l a b : identity_ok (a ++ b) -> identity_ok a.
+  Proof. intros H x y Hx Hy. apply H; apply in_app_iff; auto. Qed.
+
+  Lemma registered_is_last_lemma ops : identity_ok (avalues ops) ->
+    forall k, aget akey_eqb (adapters (brun W ops)) k = aledger ops k.
+  Proof.
+    induction ops as [|o ops IH] using rev_ind; [reflexivity|].
+    intros ID k. rewrite avalues_app in ID. specialize (IH (identity_ok_app_l _ _ ID)).
+    rewrite brun_snoc, aledger_snoc. pose proof (inv_brun ops) as I.
+    destruct o as [req p n v|req p n v|req p v|req p v|]; cbn [bstep aled_step].
+    - destruct v as [v|].
+      + rewrite adapters_register. unfold aupd, akey_of.
+        destruct (akey_eqb k (map conv req, p, n)) eqn:K; [|apply IH].
+        destruct (aget akey_eqb (adapters (brun W ops)) (map conv req, p, n)) as [old|] eqn:E; auto.
+        destruct (v_is old v) eqn:V; auto.
+        f_equal. apply ID.
+        * apply in_app_iff; left. rewrite IH in E. eapply aledger_range; eauto.
+        * apply in_app_iff; right. cbn; auto.
+        * apply Nat.eqb_eq; auto.
+      + unfold register. rewrite adapters_unregister; [|apply I]. unfold aupd, akey_of.
+        destruct (akey_eqb k (map conv req, p, n)) eqn:K; [|apply IH].
+        destruct (aget akey_eqb (adapters (brun W ops)) (map conv req, p, n)); auto.
+    - rewrite adapters_unregister; [|apply I]. unfold akey_of. rewrite <- IH.
+      destruct v as [v|].
+      + destruct (aget akey_eqb (adapters (brun W ops)) (map conv req, p, n)) as [old|] eqn:E.
+        * cbn [removes]. destruct (v_is old v); unfold aupd.
+          -- destruct (akey_eqb k (map conv req, p, n)); auto.
+          -- destruct (akey_eqb k (map conv req, p, n)) eqn:K; auto. apply akey_eqb_eq in K; subst k. rewrite IH in E. rewrite E; auto.
+        * destruct (akey_eqb k (map conv req, p, n)) eqn:K; auto. apply akey_eqb_eq in K; subst k. rewrite IH in E. rewrite E; auto.
+      + unfold aupd. destruct (akey_eqb k (map conv req, p, n)); auto.
+        destruct (aget akey_eqb (adapters (brun W ops)) (map conv req, p, n)); auto.
+    - rewrite adapters_subscribe; auto.
+    - rewrite adapters_unsubscribe; auto.
+    - destruct (rebuild_preserves_lemma (brun W ops) I) as (_ & A & _). rewrite A; auto.
+  Qed.
+
+  Lemma sub_leaf_register r req p n v k : sub_leaf (register W r req p n v) k = sub_leaf r k.
+  Proof. apply sub_leaf_ext, subscribers_register. Qed.
+  Lemma sub_leaf_unregister r req p n v k : sub_leaf (unregister W r req p n v) k = sub_leaf r k.
+  Proof. apply sub_leaf_ext, subscribers_unregister. Qed.
+
+  Lemma sub_leaf_is_ledger ops : forall k, sub_leaf (brun W ops) k = sledger ops k.
+  Proof.
+    induction ops as [|o ops IH] using rev_ind; [reflexivity|].
+    intros k. rewrite brun_snoc, sledger_snoc. pose proof (inv_brun ops) as I.
+    destruct o as [req p n v|req p n v|req p v|req p v|]; cbn [bstep sled_step].
+    - rewrite sub_leaf_register; auto.
+    - rewrite sub_leaf_unregister; auto.
+    - rewrite leaf_subscribe. unfold supd, skey_of. rewrite !IH. reflexivity.
+    - rewrite leaf_unsubscribe; [|apply I]. unfold supd, skey_of. rewrite !IH.
+      destruct v; reflexivity.
+    - destruct (rebuild_preserves_lemma (brun W ops) I) as (_ & _ & L & _). rewrite L; auto.
+  Qed.
+End Main.
+
+(* ------------------------------------------------------------------ unambiguous lookups coincide *)
+Lemma first_some_ext_in {A B} (f g : A -> option B) l :
+  (forall x, In x l -> f x = g x) -> first_some f l = first_some g l.
+Proof.
+  induction l as [|x l IH]; cbn; auto. intros H. rewrite (H x); auto.
+  destruct (g x); auto.
+Qed.
+
+Lemma first_some_None_all {A B} (f : A -> option B) l :
+  first_some f l = None <-> forall x, In x l -> f x = None.
+Proof.
+  induction l as [|x l IH]; cbn; [tauto|].
+  destruct (f x) eqn:E.
+  - split; [discriminate | intros H; rewrite <- E; auto].
+  - rewrite IH. split; [intros H y [<-|Hy]; auto | auto].
+Qed.
+
+Lemma first_some_Some_In {A B} (f : A -> option B) l v :
+  first_some f l = Some v -> exists x, In x l /\ f x = Some v.
+Proof.
+  induction l as [|x l IH]; cbn; [discriminate|].
+  destruct (f x) eqn:E.
+  - intros [= ->]. exists x; auto.
+  - intros H. destruct (IH H) as (y & Hy & Fy). exists y; auto.
+Qed.
+
+Lemma first_some_unique {A B} (f : A -> option B) l x v :
+  In x l -> f x = Some v -> (forall y, In y l -> f y <> None -> y = x) -> first_some f l = Some v.
+Proof.
+  induction l as [|y l IH]; cbn; [tauto|].
+  intros Hx Fx U. destruct (f y) eqn:E.
+  - assert (y = x) by (apply U; auto; congruence). subst y. congruence.
+  - destruct Hx as [->|Hx]; [congruence|]. apply IH; auto.
+Qed.
+
+Lemma In_le_wsum {K V} (w : K * V -> nat) l x : In x l -> w x <= wsum w l.
+Proof. induction l as [|y l IH]; cbn; [tauto|]. intros [->|H]; [lia | specialize (IH H); lia]. Qed.
+
+Section Lookups.
+  Variable W : world.
+
+  Lemma lookup_walk_ext m1 m2 exts1 exts2 n : forall specs prefix,
+    (forall xs, Forall2 (fun x s => In x (w_sro W s)) xs specs ->
+                first_some (fun e => aget akey_eqb m1 (prefix ++ xs, e, n)) exts1
+                = first_some (fun e => aget akey_eqb m2 (prefix ++ xs, e, n)) exts2) ->
+    lookup_walk W m1 prefix specs exts1 n = lookup_walk W m2 prefix specs exts2 n.
+  Proof.
+    induction specs as [|s specs IH]; intros prefix H; cbn [lookup_walk].
+    - specialize (H [] (Forall2_nil _)). rewrite app_nil_r in H. exact H.
+    - apply first_some_ext_in. intros x Hx. apply IH. intros xs Hxs.
+      rewrite <- !app_assoc. cbn [app]. apply (H (x :: xs)). constructor; auto.
+  Qed.
+
+  Lemma lookup_walk_nil m n : forall specs prefix, lookup_walk W m prefix specs [] n = None.
+  Proof.
+    induction specs as [|s specs IH]; intros prefix; cbn [lookup_walk]; auto.
+    apply first_some_None_all. intros x _. apply IH.
+  Qed.
+
+  Definition lookup_in (r : reg) (required : list spec) (p : spec) (n : name) : option value :=
+    lookup_walk W (adapters r) [] required (ext_get (extendors r) p) n.
+
+  Lemma uncached_lookup_first ro required p n :
+    uncached_lookup W ro required p n = first_some (fun r => lookup_in r required p n) ro.
+  Proof.
+    unfold uncached_lookup. apply first_some_ext_in. intros r _. unfold lookup_in.
+    destruct (ext_get (extendors r) p) eqn:E; auto. symmetry. apply lookup_walk_nil.
+  Qed.
+
+  (* a live entry keeps its provided interface in the extendors of everything it extends *)
+  Lemma live_entry_in_extendors r prefix e n v i : inv W r ->
+    aget akey_eqb (adapters r) (prefix, e, n) = Some v -> In i (iro W e) -> In e (ext_get (extendors r) i).
+  Proof.
+    intros [I G] A Hi. apply (inv_ex W r I). split; auto.
+    specialize (G e). unfold live in G.
+    apply (aget_Some_In akey_eqb akey_eqb_eq) in A.
+    pose proof (In_le_wsum (wa e) _ _ A) as H. unfold wa at 1 in H. cbn in H. rewrite Nat.eqb_refl in H. lia.
+  Qed.
+
+  Lemma extendor_sound r i e : inv W r -> In e (ext_get (extendors r) i) -> In i (iro W e).
+  Proof. intros [I _] H. apply (inv_ex W r I) in H. tauto. Qed.
+
+  Lemma lookup_in_coincides r r' required p n :
+    inv W r -> inv W r' ->
+    (forall k, aget akey_eqb (adapters r') k = aget akey_eqb (adapters r) k) ->
+    unamb_lookup W (fun k => aget akey_eqb (adapters r) k) required p n ->
+    lookup_in r' required p n = lookup_in r required p n.
+  Proof.
+    intros I I' A U. unfold lookup_in. apply lookup_walk_ext. intros xs Hxs. cbn [app].
+    set (f' := fun e => aget akey_eqb (adapters r') (xs, e, n)).
+    set (f := fun e => aget akey_eqb (adapters r) (xs, e, n)).
+    assert (FF : forall e, f' e = f e) by (intros e; apply A).
+    destruct (first_some f (ext_get (extendors r) p)) as [v|] eqn:E.
+    - apply first_some_Some_In in E. destruct E as (e & He & Fe).
+      assert (Pe : In p (iro W e)) by (apply (extendor_sound r p e I He)).
+      apply first_some_unique with (x := e).
+      + apply (live_entry_in_extendors r' xs e n v p I'); auto. rewrite A. exact Fe.
+      + rewrite FF; auto.
+      + intros y Hy Fy. rewrite FF in Fy. apply (U xs y e); auto.
+        * apply (extendor_sound r' p y I' Hy).
+        * unfold f in Fe. congruence.
+    - apply first_some_None_all. intros y Hy. rewrite FF.
+      destruct (f y) as [w|] eqn:Fy; auto. exfalso.
+      assert (Py : In p (iro W y)) by (apply (extendor_sound r' p y I' Hy)).
+      assert (In y (ext_get (extendors r) p)) by (apply (live_entry_in_extendors r xs y n w p I); auto).
+      pose proof (proj1 (first_some_None_all f _) E y H). congruence.
+  Qed.
+
+  Lemma unambiguous_lookup_coincides_lemma ro ro' required p n :
+    Forall2 (fun r r' => inv W r /\ inv W r'
+                         /\ (forall k, aget akey_eqb (adapters r') k = aget akey_eqb (adapters r) k)
+                         /\ unamb_lookup W (fun k => aget akey_eqb (adapters r) k) required p n) ro ro' ->
+    uncached_lookup W ro' required p n = uncached_lookup W ro required p n.
+  Proof.
+    rewrite !uncached_lookup_first. induction 1 as [|r r' ro ro' (I & I' & A & U) _ IH]; cbn; auto.
+    rewrite (lookup_in_coincides r r'); auto. rewrite IH; auto.
+  Qed.
+End Lookups.
+
+(* ------------------------------------------------------------------ extendors lists have no duplicates *)
+Definition world_ok (W : world) : Prop := forall x, NoDup (w_sro W x).
+Definition nd (r : reg) : Prop := forall i, NoDup (ext_get (extendors r) i).
+
+Lemma perm_partition {A} (f : A -> bool) (l : list A) :
+  Permutation (filter f l ++ filter (fun x => negb (f x)) l) l.
+Proof.
+  induction l as [|x l IH]; cbn; auto.
+  destruct (f x); cbn; [constructor; auto|].
+  eapply perm_trans; [apply Permutation_sym, Permutation_middle|]. constructor; auto.
+Qed.
+
+Section NoDupExt.
+  Variable W : world.
+  Hypothesis WOK : world_ok W.
+
+  Lemma NoDup_iro p : NoDup (iro W p).
+  Proof. unfold iro. apply NoDup_filter, WOK. Qed.
+
+  Lemma NoDup_ins_ext p old : NoDup old -> ~ In p old -> NoDup (ins_ext W p old).
+  Proof.
+    intros ND NI. unfold ins_ext.
+    apply (Permutation_NoDup (l := p :: old)); [|constructor; auto].
+    eapply perm_trans; [|apply Permutation_middle]. constructor.
+    apply Permutation_sym, (perm_partition (fun x => isOrExtends W p x)).
+  Qed.
+
+  Lemma fold_ins_nodup p l : forall e, NoDup l ->
+    (forall j, NoDup (ext_get e j)) -> (forall j, In j l -> ~ In p (ext_get e j)) ->
+    forall j, NoDup (ext_get (fold_left (fun e i => aset Nat.eqb e i (ins_ext W p (ext_get e i))) l e) j).
+  Proof.
+    induction l as [|i l IH]; intros e NDl ND NI j; cbn [fold_left]; auto.
+    inversion NDl; subst. apply IH; auto.
+    - intros j'. rewrite ext_get_aset. destruct (Nat.eqb j' i); auto.
+      apply NoDup_ins_ext; auto. apply NI; cbn; auto.
+    - intros j' Hj'. rewrite ext_get_aset. destruct (Nat.eqb j' i) eqn:E.
+      + apply Nat.eqb_eq in E; subst. contradiction.
+      + apply NI; cbn; auto.
+  Qed.
+
+  Lemma fold_del_nodup p l : forall e,
+    (forall j, NoDup (ext_get e j)) ->
+    forall j, NoDup (ext_get (fold_left (fun e i => aset Nat.eqb e i (del_ext p (ext_get e i))) l e) j).
+  Proof.
+    induction l as [|i l IH]; intros e ND j; cbn [fold_left]; auto.
+    apply IH. intros j'. rewrite ext_get_aset. destruct (Nat.eqb j' i); auto.
+    apply NoDup_filter; auto.
+  Qed.
+
+  Lemma nd_incr r p : ext_inv W (provided_cnt r) (extendors r) -> nd r -> nd (provide_incr W r p).
+  Proof.
+    intros I ND. unfold nd, provide_incr; cbn [extendors].
+    destruct (Nat.eqb (S (cnt_get (provided_cnt r) p)) 1) eqn:E; auto.
+    apply Nat.eqb_eq in E. intros j.
+    apply (fold_ins_nodup p (iro W p)); auto; [apply NoDup_iro|].
+    intros j' _ H. apply (I j' p) in H. lia.
+  Qed.
+
+  Lemma nd_decr r p k : nd r -> nd (provide_decr W r p k).
+  Proof.
+    intros ND. unfold nd, provide_decr.
+    destruct (Nat.eqb (cnt_get (provided_cnt r) p - k) 0); cbn [extendors]; auto.
+    intros j. apply (fold_del_nodup p (iro W p)); auto.
+  Qed.
+
+  Definition inv2 (r : reg) : Prop := inv W r /\ nd r.
+
+  Lemma inv2_unregister r req p n v : inv2 r -> inv2 (unregister W r req p n v).
+  Proof.
+    intros [I N]. split; [apply inv_unregister; auto|].
+    pose proof (unregister_cases W r req p n v) as C; cbv zeta in C.
+    destruct C as [[C _]|[C _]]; rewrite C; auto.
+    apply (nd_decr (set_ad r _)). exact N.
+  Qed.
+
+  Lemma inv2_register r req p n v : inv2 r -> inv2 (register W r req p n v).
+  Proof.
+    destruct v as [v'|]; [|apply inv2_unregister].
+    intros [I N]. split; [apply inv_register; auto|].
+    pose proof (register_cases W r req p n v') as C; cbv zeta in C.
+    destruct C as [[C _]|[C _]]; rewrite C; auto.
+    apply (nd_incr (set_ad r _)); [apply I | exact N].
+  Qed.
+
+  Lemma inv2_subscribe r req p v : inv2 r -> inv2 (subscribe W r req p v).
+  Proof.
+    intros [I N]. split; [apply inv_subscribe; auto|].
+    rewrite subscribe_form; cbv zeta. destruct p as [p'|]; [|exact N].
+    apply (nd_incr (set_su r _)); [apply I | exact N].
+  Qed.
+
+  Lemma inv2_unsubscribe r req p v : inv2 r -> inv2 (unsubscribe W r req p v).
+  Proof.
+    intros [I N]. split; [apply inv_unsubscribe; auto|].
+    pose proof (unsubscribe_cases W r req p v) as C; cbv zeta in C.
+    destruct C as [[C _]|[_ C]]; rewrite C; auto.
+    destruct p as [p'|]; [|exact N]. apply (nd_decr (set_su r _)). exact N.
+  Qed.
+
+  Lemma inv2_replay_regs regs : forall acc, inv2 acc -> inv2 (replay_regs W acc regs).
+  Proof.
+    induction regs as [|[[[req p] n] v] regs IH]; intros acc I; auto.
+    unfold replay_regs. cbn [fold_left fst snd]. apply IH. apply inv2_register; auto.
+  Qed.
+
+  Lemma inv2_replay_subs subs : forall acc, inv2 acc -> inv2 (replay_subs W acc subs).
+  Proof.
+    induction subs as [|[[req p] v] subs IH]; intros acc I; auto.
+    unfold replay_subs. cbn [fold_left fst snd]. apply IH. apply inv2_subscribe; auto.
+  Qed.
+
+  Lemma inv2_replay r0 regs subs : storage_empty r0 -> inv2 (replay_into W r0 regs subs).
+  Proof.
+    intros E. apply inv2_replay_subs, inv2_replay_regs. split; [apply inv_storage_empty; auto|].
+    destruct E as (_ & _ & _ & E). intros i. rewrite E. constructor.
+  Qed.
+
+  Lemma inv2_brun ops : inv2 (brun W ops).
+  Proof.
+    induction ops as [|o ops IH] using rev_ind.
+    - split; [apply inv_empty | intros i; constructor].
+    - rewrite brun_snoc. destruct o; cbn [bstep].
+      + apply inv2_register; auto.
+      + apply inv2_unregister; auto.
+      + apply inv2_subscribe; auto.
+      + apply inv2_unsubscribe; auto.
+      + rewrite rebuild_is_replay. apply inv2_replay. repeat split.
+  Qed.
+End NoDupExt.
+
+(* ------------------------------------------------------------------ unambiguous subscriptions coincide *)
+Lemma flat_map_ext_in' {A B} (f g : A -> list B) l :
+  (forall x, In x l -> f x = g x) -> flat_map f l = flat_map g l.
+Proof. induction l as [|x l IH]; cbn; auto. intros H. rewrite (H x), IH; auto. Qed.
+
+Lemma flat_map_map' {A B C} (f : B -> list C) (h : A -> B) l :
+  flat_map f (map h l) = flat_map (fun x => f (h x)) l.
+Proof. induction l as [|x l IH]; cbn; auto. rewrite IH; auto. Qed.
+
+Lemma flat_map_all_nil {A B} (f : A -> list B) l : (forall y, In y l -> f y = []) -> flat_map f l = [].
+Proof. induction l as [|x l IH]; cbn; auto. intros H. rewrite (H x), IH; auto. Qed.
+
+Lemma flat_map_single {A B} (f : A -> list B) l x :
+  NoDup l -> In x l -> (forall y, In y l -> y <> x -> f y = []) -> flat_map f l = f x.
+Proof.
+  induction l as [|y l IH]; cbn; [tauto|].
+  intros ND Hx H. inversion ND; subst. destruct Hx as [->|Hx].
+  - rewrite flat_map_all_nil; [apply app_nil_r|]. intros z Hz. apply H; auto. intros ->. contradiction.
+  - assert (E : f y = []) by (apply H; auto; intros ->; contradiction).
+    rewrite E. cbn. apply IH; auto.
+Qed.
+
+Lemma all_nil_or_witness {A B} (f : A -> list B) l :
+  (forall y, In y l -> f y = []) \/ exists x, In x l /\ f x <> [].
+Proof.
+  induction l as [|x l [IH|(z & Hz & Fz)]]; [left; cbn; tauto| |right; exists z; cbn; auto].
+  destruct (f x) eqn:E.
+  - left. intros y [<-|Hy]; auto.
+  - right. exists x. cbn. split; auto. congruence.
+Qed.
+
+Lemma flat_map_rev_Forall2 {A A' B} (P : A -> A' -> Prop) (f : A -> list B) (g : A' -> list B) l l' :
+  Forall2 P l l' -> (forall a b, P a b -> f a = g b) -> flat_map f (rev l) = flat_map g (rev l').
+Proof.
+  intros F H. induction F as [|a b l l' Pab _ IH]; cbn; auto.
+  rewrite !flat_map_app, IH. cbn. rewrite (H a b Pab). reflexivity.
+Qed.
+
+Section Subs.
+  Variable W : world.
+
+  Definition leaf (m : list (skey * list value)) (prefix : list spec) (e : option spec) : list value :=
+    match aget skey_eqb m (prefix, e) with Some l => l | None => [] end.
+
+  Lemma subs_walk_ext m1 m2 exts1 exts2 : forall specs prefix,
+    (forall xs, Forall2 (fun x s => In x (w_sro W s)) xs specs ->
+                flat_map (leaf m1 (prefix ++ xs)) (rev exts1) = flat_map (leaf m2 (prefix ++ xs)) (rev exts2)) ->
+    subs_walk W m1 prefix specs exts1 = subs_walk W m2 prefix specs exts2.
+  Proof.
+    induction specs as [|s specs IH]; intros prefix H; cbn [subs_walk].
+    - specialize (H [] (Forall2_nil _)). rewrite app_nil_r in H. exact H.
+    - apply flat_map_ext_in'. intros x Hx. apply IH. intros xs Hxs.
+      rewrite <- !app_assoc. cbn [app]. apply (H (x :: xs)). constructor; auto.
+      apply in_rev; auto.
+  Qed.
+
+  Lemma subs_walk_nil m : forall specs prefix, subs_walk W m prefix specs [] = [].
+  Proof.
+    induction specs as [|s specs IH]; intros prefix; cbn [subs_walk]; auto.
+    apply flat_map_all_nil. intros x _. apply IH.
+  Qed.
+
+  Definition subs_in (r : reg) (required : list spec) (p : option spec) : list value :=
+    match p with
+    | None => subs_walk W (subscribers r) [] required [None]
+    | Some p' => subs_walk W (subscribers r) [] required (map Some (ext_get (extendors r) p'))
+    end.
+
+  Lemma uncached_subscriptions_flat ro required p :
+    uncached_subscriptions W ro required p = flat_map (fun r => subs_in r required p) (rev ro).
+  Proof.
+    unfold uncached_subscriptions. apply flat_map_ext_in'. intros r _. unfold subs_in.
+    destruct p as [p'|]; auto. unfold ext_get.
+    destruct (aget Nat.eqb (extendors r) p'); auto. cbn [map]. symmetry. apply subs_walk_nil.
+  Qed.
+
+  Lemma live_sub_in_extendors r prefix e i : inv W r ->
+    sub_leaf r (prefix, Some e) <> [] -> In i (iro W e) -> In e (ext_get (extendors r) i).
+  Proof.
+    intros [I G] A Hi. apply (inv_ex W r I). split; auto.
+    specialize (G e). unfold live in G.
+    apply (sub_leaf_aget r) in A. apply (aget_Some_In skey_eqb skey_eqb_eq) in A.
+    pose proof (In_le_wsum (ws e) _ _ A) as H. unfold ws at 1 in H. cbn [fst snd] in H.
+    cbn [ospec_eqb] in H. rewrite Nat.eqb_refl in H.
+    destruct (sub_leaf r (prefix, Some e)) eqn:E; [|cbn in H; lia].
+    unfold sub_leaf in E. apply (In_aget skey_eqb skey_eqb_eq) in A; [|apply I]. rewrite A in E.
+    exfalso. eapply (inv_ne W r I); [eapply (aget_Some_In skey_eqb skey_eqb_eq); eauto | auto].
+  Qed.
+
+  Lemma subs_in_coincides r r' required p :
+    inv W r -> nd r -> inv W r' -> nd r' ->
+    (forall k, sub_leaf r' k = sub_leaf r k) ->
+    match p with Some p' => unamb_subs W (fun k => sub_leaf r k) required p' | None => True end ->
+    subs_in r' required p = subs_in r required p.
+  Proof.
+    intros I N I' N' A U. unfold subs_in. destruct p as [p'|].
+    - apply subs_walk_ext. intros xs Hxs. cbn [app].
+      rewrite <- !map_rev, !flat_map_map'.
+      set (g' := fun e => leaf (subscribers r') xs (Some e)). set (g := fun e => leaf (subscribers r) xs (Some e)).
+      assert (GG : forall e, g' e = g e) by (intros e; apply (A (xs, Some e))).
+      assert (GL : forall e, g e = sub_leaf r (xs, Some e)) by reflexivity.
+      destruct (all_nil_or_witness g (rev (ext_get (extendors r) p'))) as [AN|(e & He & Fe)].
+      + rewrite (flat_map_all_nil g _ AN). apply flat_map_all_nil. intros y Hy. rewrite GG.
+        destruct (g y) eqn:Gy; auto. exfalso.
+        rewrite <- in_rev in Hy. pose proof (extendor_sound W r' p' y I' Hy) as Py.
+        assert (Hy2 : In y (ext_get (extendors r) p')).
+        { apply (live_sub_in_extendors r xs y p' I); auto. rewrite <- GL, Gy. discriminate. }
+        rewrite (AN y) in Gy; [discriminate | rewrite <- in_rev; auto].
+      + rewrite <- in_rev in He. pose proof (extendor_sound W r p' e I He) as Pe.
+        assert (He' : In e (ext_get (extendors r') p')).
+        { apply (live_sub_in_extendors r' xs e p' I'); auto. rewrite A, <- GL; auto. }
+        assert (S1 : flat_map g (rev (ext_get (extendors r) p')) = g e).
+        { apply flat_map_single; [apply NoDup_rev, N | rewrite <- in_rev; auto |].
+          intros y Hy Ny. destruct (g y) eqn:Gy; auto. exfalso. apply Ny.
+          rewrite <- in_rev in Hy.
+          apply (U xs y e Hxs (extendor_sound W r p' y I Hy) Pe); [rewrite <- GL, Gy; discriminate | rewrite <- GL; exact Fe]. }
+        assert (S2 : flat_map g' (rev (ext_get (extendors r') p')) = g' e).
+        { apply flat_map_single; [apply NoDup_rev, N' | rewrite <- in_rev; auto |].
+          intros y Hy Ny. rewrite GG. destruct (g y) eqn:Gy; auto. exfalso. apply Ny.
+          rewrite <- in_rev in Hy.
+          apply (U xs y e Hxs (extendor_sound W r' p' y I' Hy) Pe); [rewrite <- GL, Gy; discriminate | rewrite <- GL; exact Fe]. }
+        rewrite S1, S2, GG. reflexivity.
+    - apply subs_walk_ext. intros xs _. cbn. rewrite !app_nil_r. apply (A (xs, None)).
+  Qed.
+
+  Lemma unambiguous_subscriptions_coincide_lemma ro ro' required p :
+    Forall2 (fun r r' => inv W r /\ nd r /\ inv W r' /\ nd r'
+                         /\ (forall k, sub_leaf r' k = sub_leaf r k)
+                         /\ match p with Some p' => unamb_subs W (fun k => sub_leaf r k) required p' | None => True end)
+            ro ro' ->
+    uncached_subscriptions W ro' required p = uncached_subscriptions W ro required p.
+  Proof.
+    intros F. rewrite !uncached_subscriptions_flat. symmetry.
+    eapply flat_map_rev_Forall2; [exact F|].
+    intros r r' (I & N & I' & N' & A & U). symmetry. apply subs_in_coincides; auto.
+  Qed.
+End Subs.
+
+(* ------------------------------------------------------------------ statements assembled for Properties/C09.v *)
+Lemma aled_step_untouched m o k : touches_a k o = false -> aled_step m o k = m k.
+Proof.
+  destruct o as [req p n v|req p n v| | |]; cbn [touches_a aled_step]; auto; intros T.
+  - unfold aupd. rewrite T; auto.
+  - destruct v as [v|]; [|unfold aupd; rewrite T; auto].
+    destruct (m (akey_of req p n)) as [old|]; auto.
+    destruct (v_is old v); auto. unfold aupd. rewrite T; auto.
+Qed.
+
+Lemma ledger_last_write_wins_lemma ops ops' req p n v :
+  forallb (fun o => negb (touches_a (akey_of req p n) o)) ops' = true ->
+  aledger (ops ++ BRegister req p n v :: ops') (akey_of req p n) = v.
+Proof.
+  unfold aledger. rewrite fold_left_app. cbn [fold_left].
+  generalize (fold_left aled_step ops (fun _ : akey => None)). intros m0.
+  assert (G : forall m, forallb (fun o => negb (touches_a (akey_of req p n) o)) ops' = true ->
+                        fold_left aled_step ops' m (akey_of req p n) = m (akey_of req p n)).
+  { induction ops' as [|o ops' IH]; intros m; cbn [fold_left forallb]; auto.
+    rewrite andb_true_iff, negb_true_iff. intros [T R]. rewrite IH; auto. apply aled_step_untouched; auto. }
+  intros H. rewrite G; auto. cbn [aled_step]. unfold aupd. rewrite (eqb_refl akey_eqb akey_eqb_eq). reflexivity.
+Qed.
+
+Lemma unamb_lookup_ext W m m' required p n :
+  (forall k, m k = m' k) -> unamb_lookup W m required p n -> unamb_lookup W m' required p n.
+Proof. intros E U prefix e1 e2 H1 H2 H3 H4 H5. apply (U prefix e1 e2); auto; rewrite E; auto. Qed.
+
+Lemma unamb_subs_ext W m m' required p :
+  (forall k, m k = m' k) -> unamb_subs W m required p -> unamb_subs W m' required p.
+Proof. intros E U prefix e1 e2 H1 H2 H3 H4 H5. apply (U prefix e1 e2); auto; rewrite E; auto. Qed.
+
+Section Corollaries.
+  Variable W : world.
+
+  Lemma replay_answers_lemma ops r0 regs subs required :
+    identity_ok (avalues ops) -> storage_empty r0 ->
+    Permutation regs (allRegistrations (brun W ops)) -> Permutation subs (allSubscriptions (brun W ops)) ->
+    (forall k, map snd (filter (fun kv => skey_eqb (fst kv) k) subs) = sub_leaf (brun W ops) k) ->
+    (forall p n, unamb_lookup W (aledger ops) required p n ->
+       uncached_lookup W [replay_into W r0 regs subs] required p n = uncached_lookup W [brun W ops] required p n)
+    /\ (world_ok W -> forall p,
+          match p with Some p' => unamb_subs W (sledger ops) required p' | None => True end ->
+          uncached_subscriptions W [replay_into W r0 regs subs] required p
+          = uncached_subscriptions W [brun W ops] required p).
+  Proof.
+    intros ID E PR PS PK. pose proof (inv_brun W ops) as I.
+    destruct (replay_preserves_lemma W (brun W ops) r0 regs subs I E PR PS PK) as (I' & A & L & _).
+    split.
+    - intros p n U. apply unambiguous_lookup_coincides_lemma. constructor; [|constructor].
+      split; [auto|]. split; [auto|]. split; [auto|]. eapply unamb_lookup_ext; [|exact U].
+      intros k. symmetry. apply registered_is_last_lemma; auto.
+    - intros WOK p U. apply unambiguous_subscriptions_coincide_lemma. constructor; [|constructor].
+      split; [auto|]. split; [apply (inv2_brun W WOK ops)|]. split; [auto|].
+      split; [apply (inv2_replay W WOK r0 regs subs E)|]. split; [auto|].
+      destruct p as [p'|]; auto. eapply unamb_subs_ext; [|exact U].
+      intros k. symmetry. apply sub_leaf_is_ledger.
+  Qed.
+
+  Lemma rebuild_answers_lemma ops required :
+    identity_ok (avalues ops) ->
+    (forall p n, unamb_lookup W (aledger ops) required p n ->
+       uncached_lookup W [rebuild W (brun W ops)] required p n = uncached_lookup W [brun W ops] required p n)
+    /\ (world_ok W -> forall p,
+          match p with Some p' => unamb_subs W (sledger ops) required p' | None => True end ->
+          uncached_subscriptions W [rebuild W (brun W ops)] required p
+          = uncached_subscriptions W [brun W ops] required p).
+  Proof.
+    intros ID. rewrite rebuild_is_replay. apply replay_answers_lemma; auto.
+    - repeat split.
+    - intros k. apply proj_allsubs. apply (inv_brun W ops).
+  Qed.
+End Corollaries.
